@@ -651,6 +651,64 @@ theorem mem_dkeys_foldl_dset (ps acc : List (K × V)) (k : K) :
       · exact .inr (.inr h)
 
 
+/-! ### construction paths that do not start from an empty, well formed object (unpickling) -/
+
+theorem dset_self_of_mem {l : List (K × V)} {k : K} {v : V} (hn : (dkeys l).Nodup) (h : (k, v) ∈ l) :
+    dset l k v = l := by
+  apply dict_ext _ _ (nodup_dkeys_dset k v hn)
+  · have : k ∈ dkeys l := List.mem_map.2 ⟨(k, v), h, rfl⟩
+    rw [dkeys_dset, if_pos this]
+  · intro k'
+    rw [dget_dset]
+    by_cases e : k' = k
+    · subst e; simp [dget_of_mem_nodup hn h]
+    · simp [e]
+
+theorem foldl_dset_sub {l : List (K × V)} (hn : (dkeys l).Nodup) (ps : List (K × V)) (hs : ∀ p ∈ ps, p ∈ l) :
+    ps.foldl (fun m p => dset m p.1 p.2) l = l := by
+  induction ps with
+  | nil => rfl
+  | cons p t ih =>
+    simp only [List.foldl_cons]
+    rw [dset_self_of_mem hn (by cases p; exact hs _ (by simp))]
+    exact ih (fun q hq => hs q (by simp [hq]))
+
+theorem OD.update_d (s : OD K V) (ps : List (K × V)) :
+    (s.update ps).d = ps.foldl (fun m p => dset m p.1 p.2) s.d := by
+  unfold OD.update
+  induction ps generalizing s with
+  | nil => rfl
+  | cons p t ih => simp only [List.foldl_cons]; rw [ih]; rfl
+
+theorem OD.update_keys (s : OD K V) (ps : List (K × V)) :
+    (s.update ps).keys = (dkeys ps).foldl (fun ks k => if k ∈ ks then ks else ks ++ [k]) s.keys := by
+  unfold OD.update
+  induction ps generalizing s with
+  | nil => rfl
+  | cons p t ih => simp only [List.foldl_cons, dkeys_cons]; rw [ih]; rfl
+
+/-- a dict part filled behind `__setitem__`'s back with the very items that are then assigned one by one:
+`_keys` is rebuilt in item order and the dict part is unchanged -/
+theorem Rel.rawFilled (l : List (K × V)) (hn : (dkeys l).Nodup) :
+    Rel (OD.update (⟨l, []⟩ : OD K V) l) l := by
+  have hd : (OD.update (⟨l, []⟩ : OD K V) l).d = l := by
+    rw [OD.update_d]; exact foldl_dset_sub hn l (fun p hp => hp)
+  have hk : (OD.update (⟨l, []⟩ : OD K V) l).keys = dkeys l := by
+    rw [OD.update_keys]
+    have : ∀ (ks acc : List K), (acc ++ ks).Nodup →
+        ks.foldl (fun ks k => if k ∈ ks then ks else ks ++ [k]) acc = acc ++ ks := by
+      intro ks
+      induction ks with
+      | nil => intro acc _; simp
+      | cons a t ih =>
+        intro acc h
+        have ha : a ∉ acc := fun x => (List.nodup_append.1 h).2.2 a x a (by simp) rfl
+        simp only [List.foldl_cons, ha, if_false]
+        have e : acc ++ [a] ++ t = acc ++ a :: t := by simp
+        rw [ih _ (by rw [e]; exact h), e]
+    simpa using this (dkeys l) [] (by simpa using hn)
+  exact ⟨by rw [hk]; exact hn, by rw [hd]; exact hn, hk.symm, fun k => by rw [hd]⟩
+
 /-! ### which keys a call can store -/
 
 def AOp.keyArgs : AOp K V → List K
@@ -749,6 +807,8 @@ theorem Spec.mem_dkeys_step [DecidableEq V] (m : List (K × V)) (op : AOp K V) (
     · exact .inl h
   | reversed => exact .inl h
   | or _ => exact .inl h
+  | pickle => exact .inl h
+  | pickleLegacy => exact .inl h
   | getitem _ => exact .inl h
   | contains _ => exact .inl h
   | get _ _ => exact .inl h
@@ -830,6 +890,8 @@ theorem keyArgs_lower (op : AOp K V) : ∀ k ∈ (op.lower lower).keyArgs, lower
     obtain ⟨x, _, rfl⟩ := List.mem_map.1 hk; exact hl x
   | reversed => simp [AOp.lower, AOp.keyArgs] at hk
   | or _ => simp [AOp.lower, AOp.keyArgs] at hk
+  | pickle => simp [AOp.lower, AOp.keyArgs] at hk
+  | pickleLegacy => simp [AOp.lower, AOp.keyArgs] at hk
   | sift fs => cases fs <;> simp [AOp.lower, AOp.keyArgs] at hk
   | delitem _ => simp [AOp.lower, AOp.keyArgs] at hk
   | getitem _ => simp [AOp.lower, AOp.keyArgs] at hk
@@ -853,6 +915,20 @@ theorem loweredM_step [DecidableEq V] {m : List (K × V)} (h : LoweredM lower m)
   rcases Spec.mem_dkeys_step m _ k hk with h' | h'
   · exact h k h'
   · exact keyArgs_lower hl op k h'
+
+/-- `lodict.update` is `odict.update` with the case-insensitive dictionary of the pairs, in any state -/
+theorem LOD.update_eq (s : OD K V) (ps : List (K × V)) :
+    LOD.update lower s ps = (s.update (Spec.fromPairs (ps.map (lo lower))), .ok ()) := by
+  have hT : Rel (ps.foldl (fun t p => OD.setitem t (lower p.1) p.2) (OD.empty : OD K V))
+      (Spec.fromPairs (ps.map (lo lower))) := by
+    have := Rel.init (K := K) (V := V) (ps.map (lo lower))
+    simpa [OD.init, OD.update, List.foldl_map, lo] using this
+  have hlow := loweredM_fromPairs_lo (V := V) hl ps
+  have e : (Spec.fromPairs (ps.map (lo lower))).foldl (fun s p => LOD.setitem lower s p.1 p.2) s
+      = s.update ((Spec.fromPairs (ps.map (lo lower))).map (lo lower)) := by
+    simp [OD.update, List.foldl_map, lo, LOD.setitem]
+  rw [map_lo_of_lowered hlow] at e
+  simp only [LOD.update, hT.items, e]
 
 /-- `lodict.update` -/
 theorem LOD.update_rel {s : OD K V} {m : List (K × V)} (h : Rel s m) (ps : List (K × V)) :
